@@ -1,5 +1,5 @@
 // ---- prelude_compiler.rs: the types of src/ast.rs, src/symbols.rs and src/compiler.rs as Verus sees them (R8) ----
-//@TYPE file=ast.rs name=Operator attrs="#[derive(PartialEq, Eq, Structural)]"
+//@TYPE file=ast.rs name=Operator attrs="#[derive(PartialEq, Eq, Structural, Clone, Copy)]"
 
 /// meaning of a source operator (property-level table)
 pub open spec fn operator_sem(o: Operator) -> int {
